@@ -677,81 +677,6 @@ func errValueOf(call *ssa.Call) ssa.Value {
 	return extractOf(call, idx)
 }
 
-// returnGuarded: does success return r of fn lie behind pred(subject) == want?
-func returnGuarded(fn *ssa.Function, r *ssa.Return, pred string, want bool, subj guardSubject, depth int) bool {
-	idx := errResultIndex(fn.Signature)
-	for _, ci := range callsIn(fn) {
-		call, ok := ci.(*ssa.Call)
-		if !ok || len(call.Call.Args) == 0 {
-			continue
-		}
-		_, name := calleePkgName(&call.Call)
-		if name == pred && !call.Call.IsInvoke() {
-			if !subjectMatches(fn, subj, call.Call.Args[0], r) {
-				continue
-			}
-			ifi, neg := ifOn(call)
-			if ifi == nil {
-				continue
-			}
-			branch := 0
-			if want == neg {
-				branch = 1
-			}
-			if edgeDominates(ifi.Block(), branch, r.Block()) {
-				return true
-			}
-			continue
-		}
-		// same-package helper that receives the subject and fails unless the predicate holds
-		h := call.Call.StaticCallee()
-		if depth <= 0 || h == nil || h == fn || len(h.Blocks) == 0 || fnPkgPath(h) != fnPkgPath(fn) {
-			continue
-		}
-		ev := errValueOf(call)
-		if ev == nil {
-			continue
-		}
-		behind := errNilEdgeDominates(ev, r.Block())
-		if !behind && idx >= 0 && idx < len(r.Results) && r.Results[idx] == ev {
-			behind = true // `return z, helper(...)`: success of fn is success of the helper
-		}
-		if !behind {
-			continue
-		}
-		// (a) the helper receives the subject as an argument and tests it
-		for j, a := range call.Call.Args {
-			if subjectMatches(fn, subj, a, r) && fnGuarded(h, pred, want, guardSubject{kind: "param", param: j}, depth-1) {
-				return true
-			}
-		}
-		// (b) the value returned by fn IS the helper's tested result (constructor chains)
-		if subj.kind == "result" && len(r.Results) > 0 {
-			if ex, ok := valRoot(r.Results[0]).(*ssa.Extract); ok && ex.Tuple == call && ex.Index == 0 && fnGuarded(h, pred, want, guardSubject{kind: "result"}, depth-1) {
-				return true
-			}
-		}
-		// (c) the helper performs the operation and tests its flags itself
-		if subj.kind == "op" && fnGuarded(h, pred, want, subj, depth-1) {
-			return true
-		}
-	}
-	return false
-}
-
-func fnGuarded(fn *ssa.Function, pred string, want bool, subj guardSubject, depth int) bool {
-	rets := successReturns(fn)
-	if len(rets) == 0 {
-		return false
-	}
-	for _, r := range rets {
-		if !returnGuarded(fn, r, pred, want, subj, depth) {
-			return false
-		}
-	}
-	return true
-}
-
 // ruleGuard: every success return of fnName lies behind pred(subject) == want, for each subject.
 func ruleGuard(c *Ctx, p *Program, byName map[string]*ssa.Function, rule, fnName, pred string, want bool, why string, subjects ...guardSubject) {
 	fn := byName[fnName]
@@ -766,14 +691,9 @@ func ruleGuard(c *Ctx, p *Program, byName map[string]*ssa.Function, rule, fnName
 		}
 		rets := successReturns(fn)
 		bad := ""
-		for _, r := range rets {
-			if !returnGuarded(fn, r, pred, want, subj, 3) {
-				bad = " — the success return at " + p.Pos(r.Pos()) + " is not behind it"
-				break
-			}
-		}
-		if len(rets) == 0 {
-			bad = " — no success return found"
+		q := newGuardQuery(fn.Prog, fn.Pkg, pred, want)
+		if ok, why := q.guarded(fn, subj, 3); !ok {
+			bad = " — " + why
 		}
 		if bad != "" {
 			c.Violate(rule, key, p.Pos(fn.Pos()), fmt.Sprintf("%s: every success return of %s must lie behind %s == %v tested on %s, in the function or a helper it hands the value to%s", why, fnName, pred, want, subj, bad), nil)
